@@ -66,9 +66,9 @@ func init() {
 			c19concurrent(1, "200", 1), c19concurrent(1, "never", 1), c19concurrent(2, "200", 1),
 		}
 	}), info)
-	check.RegisterProp("C05", plan([]string{"C05"}, []fam{{"entities", 7, 8}, {"modules", 4, 7}}, nil), info)
-	check.RegisterProp("C06", plan([]string{"C06"}, []fam{{"entities", 7, 8}, {"components", 5, 7}, {"modules", 4, 7}}, nil), info)
+	check.RegisterProp("C05", plan([]string{"C05"}, []fam{{"entities", 7, 8}, {"modules", 4, 7}, {"own-switch", 7, 9}}, nil), info)
+	check.RegisterProp("C06", plan([]string{"C06"}, []fam{{"entities", 7, 8}, {"components", 5, 7}, {"modules", 4, 7}, {"subscriptions", 8, 10}}, nil), info)
 	check.RegisterProp("C12", plan([]string{"C12"}, []fam{{"components", 6, 8}, {"components-ids", 4, 6}}, nil), info)
-	check.RegisterProp("C13", plan([]string{"C13"}, []fam{{"components", 6, 8}}, nil), info)
+	check.RegisterProp("C13", plan([]string{"C13"}, []fam{{"components", 6, 8}, {"subscriptions", 8, 10}}, nil), info)
 	check.RegisterProp("C16", plan([]string{"C16"}, []fam{{"modules", 7, 10}}, nil), info)
 }
